@@ -379,3 +379,113 @@ def check(ctx, ids):
         if "bodies" in e:
             ctx.ob("must-pass|%s|floor" % eid, n >= e.get("floor", 1),
                    "family `%s`: expected >= %d members with the effect (found %d)" % (eid, e.get("floor", 1), n), [])
+
+
+# ------------------------------------------------------------------ branch-commit rule
+def closest_branch_edge(b, site):
+    """(x, y): the closest switch edge that dominates the site (x's terminator is a switch, y is the one successor of x on the
+    way to the site); None if the site is reached unconditionally."""
+    cur = site.b
+    idom = b.idom
+    seen = set()
+    while cur is not None and cur not in seen:
+        seen.add(cur)
+        d = idom.get(cur)
+        if d is None or d == cur:
+            return None
+        t = b.blocks[d]["term"]
+        if t["t"] == "switch":
+            ys = [y for y in b.succ[d] if y == cur or b.block_dominates(y, site.b)]
+            if len(ys) == 1:
+                return (d, ys[0])
+        cur = d
+    return None
+
+
+def check_commit(ctx, cid, bodies_rx, effect_rx, what, floor=1):
+    """For every effect site: once control is on the innermost branch that leads to the effect, every path to a return performs an
+    effect of that kind (no way out between the decision and the effect)."""
+    P = ctx.prog
+    rx = re.compile(bodies_rx)
+    n = 0
+    for b in P.all_bodies():
+        if not rx.search(b.name) or "::tests" in b.name:
+            continue
+        eff_all = list(b.calls(effect_rx))
+        for e in eff_all:
+            eff = [x for x in eff_all if x.callee == e.callee]
+            edge = closest_branch_edge(b, e)
+            n += 1
+            if edge is None:
+                p = b.escape_path(None, avoiding=eff)
+                where = "function entry"
+            else:
+                p = b.escape_path(Site(b, edge[1], -1), avoiding=eff)
+                where = "the branch bb%d->bb%d" % edge
+            msg = what + " (%s, from %s)" % (b.name, where)
+            if p is not None:
+                msg += " -- escape path through blocks " + "->".join("bb%d" % x for x in p[:14])
+            ctx.ob("commit|%s|%s|%s" % (cid, b.name, K_last(e.callee)), p is None, msg, [e])
+    ctx.ob("commit|%s|floor" % cid, n >= floor, "expected >= %d effect sites (found %d)" % (floor, n), [])
+
+
+def K_last(c):
+    return (c or "?").rsplit("::", 1)[-1]
+
+
+# effect groups for the branch-commit rule: name -> (bodies regex, effect regex, description)
+COMMIT_GROUPS = {
+    "task-release": (r"^executor::task", r"RunOnDrop::new$|UnsafeCell::with_mut$|^std::alloc::dealloc$|ManuallyDrop::drop$",
+                     "task memory / future / output release: once the state test selected the releasing branch, the release happens"),
+    "executor-drop": (r"^<executor::|^executor::", r"JoinHandle::join$|CancelToken::cancel$|Signal::set$|Slab::drain$|Vec::drain$",
+                      "executor shutdown steps"),
+    "mailbox-signals": (r"^channel::|^<channel::", r"notify(_one|_all)?$|channel::queue::Queue::(push|pop|close)$",
+                        "mailbox operations and the wake-ups that follow them"),
+    "pool": (r"^executor::|^<executor::", r"PoolManager::\w+$|Injector::\w+$|Unparker::unpark$|schedule_task$|Runnable::run$|Vec::push$|Vec::pop$",
+             "worker pool bookkeeping and task hand-over"),
+    "sched-queue": (r"^simulation::|^<simulation::", r"PriorityQueue::(insert|pull)$|SyncCell::write$|Simulation::run$|Clock::synchronize$|spawn_and_forget$|Executor::run$",
+                    "scheduler queue, time cell, clock and executor hand-over in the simulation front end"),
+    "time-cell": (r"^util::sync_cell::", r"tearable_store$|Atomic\w*::store$|^std::sync::atomic::fence$", "seqlock write protocol"),
+    "sinks": (r"^<ports::sink::|^ports::sink::|^<ports::output::sender::\w*EventSink", r"EventSinkWriter::write$|VecDeque::(push_back|pop_front)$",
+              "sink writes"),
+    "throw": (r"^ports::|^<ports::|^executor::mt_executor::run_local_worker", r"unwrap_or_throw$|PoolManager::register_panic$", "error reporting"),
+    "registration": (r"^simulation::add_model$|^simulation::sim_init::|^model::context::BuildContext", r"spawn_and_forget$|Vec::push$|^simulation::add_model$",
+                     "model registration"),
+}
+# (function, effect) pairs where a way out between the decision and the effect is the specified behaviour; each is decided by a
+# dedicated clause
+COMMIT_EXCEPTIONS = {
+    ("simulation::Simulation::step_to_next_bounded", "run"): "the OutOfSync failure returns before run (C18.a out-of-sync-skips-run / synchronised-time-run)",
+    ("simulation::Simulation::step_until_unchecked", "write"): "a newly scheduled action makes the final jump `continue` instead (C01.g)",
+    ("simulation::Simulation::step_until_unchecked", "synchronize"): "same branch as the write (C01.g, C18.b written-target-synchronised)",
+}
+
+
+def commit_group(ctx, name, floor=1):
+    bodies_rx, effect_rx, what = COMMIT_GROUPS[name]
+    P = ctx.prog
+    rx = re.compile(bodies_rx)
+    n = 0
+    for b in P.all_bodies():
+        if not rx.search(b.name) or "::tests" in b.name:
+            continue
+        eff_all = list(b.calls(effect_rx))
+        for e in eff_all:
+            key = (b.name, K_last(e.callee))
+            n += 1
+            if key in COMMIT_EXCEPTIONS:
+                continue
+            eff = [x for x in eff_all if x.callee == e.callee]
+            edge = closest_branch_edge(b, e)
+            if edge is None:
+                p = b.escape_path(None, avoiding=eff)
+                where = "function entry"
+            else:
+                p = b.escape_path(Site(b, edge[1], -1), avoiding=eff)
+                where = "the branch bb%d->bb%d" % edge
+            msg = "%s: once control is on the branch that leads to %s, every path to a return performs it (%s, from %s)" % (what, K_last(e.callee), b.name, where)
+            if p is not None:
+                msg += " -- escape path through blocks " + "->".join("bb%d" % x for x in p[:14])
+            ctx.ob("commit|%s|%s|%s" % (name, b.name, K_last(e.callee)), p is None, msg, [e])
+    if n < floor:
+        ctx.missing("commit group %s: %d effect sites (expected >= %d)" % (name, n, floor))
